@@ -1734,6 +1734,7 @@ func aggregateTraversalMatch(readingClause *cypher.ReadingClause, sourceSymbol s
 	if !leftOK || !relationshipOK || !rightOK ||
 		leftNode == nil || relationship == nil || rightNode == nil ||
 		variableSymbol(leftNode.Variable) != sourceSymbol ||
+		len(leftNode.Kinds) > 0 ||
 		leftNode.Properties != nil ||
 		relationship.Variable != nil ||
 		relationship.Range == nil ||
